@@ -91,7 +91,7 @@ PROPS = {
         'trusted_base': GOV_TB + ['translator effect scan (translator/effects.go): assignments through receiver / pointer, map, slice parameters / package variables, call graph by name inside package wire; calls into imported packages are assumed read-only',
                                   'Go race detector for the shared-use half (binary built with -race, 2..64 goroutines per message)'],
         'assumptions': COMMON_ASSUME + ['partial: absence of data races under the Go memory model is runtime behaviour the Coq model cannot exhibit; it follows informally from the effect-scan obligation and is tested under the race detector',
-                                        'aliasing through local pointer variables is not tracked by the effect scan (none of the scanned functions takes the address of a receiver field)'],
+                                        'the effect scan tracks locals bound to the receiver, to a shared parameter, to one of their members or to the address of one (writes through such aliases count); pointers returned by calls are not tracked'],
     },
     'C14': {
         'props': ['theories/Props/C14.v'], 'deps': ['theories/Model/Json.v', 'theories/Theory/JsonFacts.v', 'gen/Json.v', 'gen/Tags.v'],
@@ -100,6 +100,7 @@ PROPS = {
                          'translator reading of client/model_*.go and of openapi.yaml (block-mapping subset reader in translator/json.go)',
                          'model of encoding/json (Model/Json.v): member lookup by exact name, omitempty on strings and nil pointers, null -> nil, struct values always emitted; tied by stream l7-json (2,000+ encode / decode cases incl. dropped, unknown, misspelt, null and {} members)'],
         'assumptions': COMMON_ASSUME + ['case-insensitive member matching of encoding/json is not modelled (the generated documents use exact names)',
+                                        'element values are taken to be valid UTF-8: json.Marshal replaces invalid bytes by U+FFFD, which is behaviour of encoding/json outside the model',
                                         'name agreement is proved for the 29 message elements outside the recorded list of 31; those 31 are recorded findings (Findings/C14.v)'],
     },
     'C15': {
